@@ -2,7 +2,7 @@
    Statements only; proofs live in Proofs/Sketch{Filter,Track,Gen}Proofs.v.
    Model: Model/Sketch.v (src/types/sketch_track.rs, debug-profile arithmetic). *)
 From MV Require Import Base.Prelude Base.Facts Model.Sketch
-  Proofs.SketchFilterProofs Proofs.SketchTrackProofs Proofs.SketchGenProofs.
+  Proofs.SketchFilterProofs Proofs.SketchTrackProofs Proofs.SketchGenProofs Proofs.SketchTokProofs.
 
 (* ------------------------------------------------------------------ part 1: the filter *)
 
@@ -56,6 +56,47 @@ Example C39_filter_nonvacuous :
               term_filter_maybe_contains flt 65535%N = Ok true /\
               term_filter_maybe_contains flt 4660%N = Ok false.
 Proof. eexists. vm_compute. repeat split. Qed.
+
+(* (2b) with the tokenizer modelled after its Unicode oracles: split on non-alphanumeric
+        characters, keep a piece iff its UTF-8 BYTE length is >= 2.  The theorem quantifies
+        over the tokens exactly as the tokenizer emits them -- a lone two-byte letter is
+        one of them -- and nothing between the tokenizer and the filter drops a token. *)
+Theorem C39_sketch_no_false_negative_tokenizer :
+  forall (is_alnum : N -> bool) (text : Type) (normalise : text -> list N)
+         (hash_token : list N -> N) (raw_weight : list N -> N -> Z),
+    (forall t c, (raw_weight t c <= 715827882)%Z) ->
+    forall fid (txt : text) v t,
+      In t (tokenize_norm is_alnum (normalise txt)) ->
+      exists e, generate_sketch (list N) (list_eqb N.eqb) hash_token raw_weight fid
+                                (tokenize_norm is_alnum (normalise txt)) v = Ok e /\
+                term_filter_maybe_contains (e_filter e) (hash_token t) = Ok true.
+Proof. exact sketch_no_false_negative_bytelen. Qed.
+Print Assumptions C39_sketch_no_false_negative_tokenizer.
+
+(* the length rule is on bytes: one alphanumeric character alone is a token iff it is not
+   ASCII; every token has >= 2 bytes and only alphanumeric characters *)
+Theorem C39_tokenizer_byte_length_rule :
+  forall (is_alnum : N -> bool),
+    (forall c, is_alnum c = true -> tokenize_norm is_alnum [c] = if (c <? 128)%N then [] else [[c]]) /\
+    (forall cs t, In t (tokenize_norm is_alnum cs) -> (2 <= str_len t)%N /\ forallb is_alnum t = true).
+Proof.
+  exact (fun a => conj (tokenize_norm_single a)
+                       (fun cs t H => conj (tokenize_norm_bytes a cs t H) (tokenize_norm_alnum a cs t H))).
+Qed.
+Print Assumptions C39_tokenizer_byte_length_rule.
+
+(* non-vacuity: "a à b, 日" -- the one-character tokens à (2 bytes) and 日 (3 bytes) are emitted,
+   a and b (1 byte) are not, and the generated Small entry reports both as present *)
+Definition sample_alnum (c : N) : bool := negb ((c =? 32) || (c =? 44))%N.
+Definition sample_hash (t : list N) : N := fold_left (fun a c => a * 1000003 + c)%N t 7%N.
+Example C39_tokenizer_nonvacuous :
+  tokenize_norm sample_alnum [97; 32; 224; 32; 98; 44; 32; 26085]%N = [[224]; [26085]]%N /\
+  exists e, generate_sketch (list N) (list_eqb N.eqb) sample_hash raw_weight_no_idf 0
+                            (tokenize_norm sample_alnum [97; 32; 224; 32; 98; 44; 32; 26085]%N) Small = Ok e /\
+            term_filter_maybe_contains (e_filter e) (sample_hash [224]%N) = Ok true /\
+            term_filter_maybe_contains (e_filter e) (sample_hash [26085]%N) = Ok true /\
+            term_filter_maybe_contains (e_filter e) (sample_hash [97]%N) = Ok false.
+Proof. split; [vm_compute; reflexivity|]. eexists. vm_compute. repeat split. Qed.
 
 (* ------------------------------------------------------------------ part 2: the track *)
 
